@@ -323,6 +323,15 @@ def main():
     violations = []      # (sig, replaypath, nofail)
     try:
         exe = buildlib.build("/repo", san=False)
+        # thorough tier: every script is also run on an AddressSanitizer / UBSan build of the
+        # library (memory errors that do not show in the observations: C06 "nothing dangles",
+        # C17 "never touches freed memory", C18 "contents never altered")
+        exe_san = None
+        if tier == "thorough" and os.environ.get("VERIF_SAN", "1") != "0":
+            try:
+                exe_san = buildlib.build("/repo", san=True)
+            except SystemExit:
+                exe_san = None
         base_ok, proofs, tr_ok = coq_build(pid)
         mmodel = os.path.join(VERIF, "ocaml", "mmodel")
         bad = forbidden_scan()
@@ -369,11 +378,24 @@ def main():
 
         nvariants = [0]
 
+        san_runs = [0]
+
         def job(t):
             i, (nm, txt) = t
             ri, rm = run_one(exe, mmodel, txt, workdir, i)
             vd, nv = variant_compare(exe, txt, workdir, i, pid)
             nvariants[0] += nv
+            if exe_san:
+                ps = os.path.join(workdir, "s%d.script" % i)
+                rs = subprocess.run(["timeout", "600", exe_san, ps], capture_output=True, text=True,
+                                    errors="replace",
+                                    env=dict(os.environ, ASAN_OPTIONS="detect_leaks=0:alloc_dealloc_mismatch=0"))
+                san_runs[0] += 1
+                err = rs.stderr or ""
+                hit = [ln.strip() for ln in err.splitlines()
+                       if "ERROR: AddressSanitizer" in ln or "runtime error:" in ln or ln.startswith("SUMMARY:")]
+                if hit:
+                    vd = vd + [dict(kind="sanitizer", line=0, detail=" | ".join(hit[:3])[:600])]
             return nm, txt, ri, rm, vd
 
         evaluations = 0
@@ -485,6 +507,7 @@ def main():
                 command_distribution=dist,
                 disagreements=len(disagreements),
                 variant_runs=nvariants[0],
+                sanitizer_runs=san_runs[0],
                 translator_ok=tr_ok,
                 extra=dict(extra.get("coverage", {}), theorem_hypothesis_instances=thm_inst),
             ),
